@@ -14,11 +14,13 @@ E1(key, v) == GMap(<< <<key, v>> >>)
 
 \* overlapping dotted keys: the universe of the order-freeness theorem (ordered inputs of <= 3 entries)
 PathsOv == {K1("a"), K1("b"), K2("a", "b"), <<Sg("a"), SgI("0", 0)>>, K3("a", "b", "a")}
-ValsOv  == {G1, GNil,
+\* an object with a list position AND a name (a mixed node): merged as a whole wherever it meets another spelling
+GMix == GMap(<< << <<SgI("0", 0)>>, G1 >>, << K1("b"), Gn >> >>)
+ValsOv  == {G1, GNil, GMix,
             E1(K1("b"), G1), E1(K1("a"), Gn), E1(K1("b"), GNil),
             E1(K1("b"), E1(K1("a"), G1)),
             GList(<<G1>>), GList(<<GNil, Gn>>)}
-ValsOvQuick == {G1, GNil, E1(K1("b"), G1), E1(K1("b"), GNil), E1(K1("b"), E1(K1("a"), G1)), GList(<<GNil, Gn>>)}
+ValsOvQuick == {G1, GNil, GMix, E1(K1("b"), G1), E1(K1("b"), GNil), E1(K1("b"), E1(K1("a"), G1)), GList(<<GNil, Gn>>)}
 
 \* ---- trees and all their partial flattenings into dotted keys --------------------
 Leafs == {P("s", "1"), P("n", "1"), P("b", "true"), Nil}
